@@ -1360,6 +1360,121 @@ pub fn pinned_capture_mate_family(rng: &mut Rng, shard: u64, nshards: u64, out: 
     }
 }
 
+
+/// Near-mates: for every (king, checking slider square, square between them) geometry a position in
+/// which a slider move gives a check that would be mate but for ONE defence - a knight interposing on
+/// that between square. A generator that loses the square (a `between` / `line` table slip, a wrong
+/// check mask) sees no reply, and the search then announces a mate in one that is not there.
+/// Built with the mate maker (mate first, then the interposing knight is added and the model confirms
+/// that the only replies are interpositions on that square).
+pub fn interposition_near_mate_family(rng: &mut Rng, shard: u64, nshards: u64, out: &mut Vec<Crafted>) {
+    let mut idx = 0u64;
+    for me in [Col::W, Col::B] {
+        let opp = me.flip();
+        // `opp` king on k is checked by a slider of `me` arriving on s; b lies between
+        for k in 0..64u8 {
+            for s in 0..64u8 {
+                if !aligned(k, s) {
+                    continue;
+                }
+                let betw = between_squares(k, s);
+                let diagonal = file_of(k) != file_of(s) && rank_of(k) != rank_of(s);
+                for &b in &betw {
+                    idx += 1;
+                    if idx % nshards != shard {
+                        continue;
+                    }
+                    let start = rng.below(64) as u8;
+                    let mut maker_calls = 0;
+                    'geometry: for step in 0..64u8 {
+                        // where the slider comes from: a square from which it reaches s without already checking
+                        let from = (start + step) % 64;
+                        if from == s || from == k || betw.contains(&from) || !aligned(from, s) || aligned(from, k) && between_squares(from, k).is_empty() {
+                            continue;
+                        }
+                        let from_diag = file_of(from) != file_of(s) && rank_of(from) != rank_of(s);
+                        for sk in [Kind::Q, if diagonal { Kind::B } else { Kind::R }] {
+                            if (sk == Kind::B && !from_diag) || (sk == Kind::R && from_diag) {
+                                continue;
+                            }
+                            let mut p = Position::empty();
+                            p.turn = me;
+                            p.board[k as usize] = Some((opp, Kind::K));
+                            p.board[from as usize] = Some((me, sk));
+                            // own king somewhere harmless
+                            let mut placed = false;
+                            for kk in [sq(7, 0), sq(0, 7), sq(0, 0), sq(7, 7), sq(3, 0), sq(4, 7)] {
+                                if p.board[kk as usize].is_none() && kk != s && kk != b && !betw.contains(&kk) {
+                                    let mut t = p.clone();
+                                    t.board[kk as usize] = Some((me, Kind::K));
+                                    if t.chess_root_ok().is_ok() {
+                                        p = t;
+                                        placed = true;
+                                        break;
+                                    }
+                                }
+                            }
+                            if !placed {
+                                continue;
+                            }
+                            let m = Mv::new(from, s);
+                            if !p.is_legal(m) || !p.apply(m).in_check() || p.in_check() {
+                                continue;
+                            }
+                            let valid = |x: &Position| x.chess_root_ok().is_ok();
+                            maker_calls += 1;
+                            if let Some(mated) = mate_maker(rng, &p, m, &valid) {
+                                // add the interposer: a knight a knight's move away from b, or (a knight next
+                                // to a long line reaches two of its squares) a pawn that steps onto b
+                                let back = if opp == Col::W { -1 } else { 1 };
+                                let mut cands: Vec<(i32, i32, Kind)> = [(1, 2), (2, 1), (-1, 2), (-2, 1), (1, -2), (2, -1), (-1, -2), (-2, -1)].iter().map(|(a, c)| (*a, *c, Kind::N)).collect();
+                                cands.push((0, back, Kind::P));
+                                if rank_of(b) == (if opp == Col::W { 3 } else { 4 }) {
+                                    cands.push((0, 2 * back, Kind::P));
+                                }
+                                // a slider on the line through b perpendicular to the checked line meets that
+                                // line in b only (and its other line runs parallel to it, so it cannot take on s)
+                                let (dx, dy) = ((file_of(s) - file_of(k)).signum(), (rank_of(s) - rank_of(k)).signum());
+                                if diagonal {
+                                    cands.push((dx, -dy, Kind::B));
+                                    cands.push((-dx, dy, Kind::B));
+                                } else {
+                                    cands.push((dy, dx, Kind::R));
+                                    cands.push((-dy, -dx, Kind::R));
+                                }
+                                for (df, dr, ik) in cands {
+                                    let (f, r) = (file_of(b) + df, rank_of(b) + dr);
+                                    if !on_board(f, r) || (ik == Kind::P && (r == 0 || r == 7)) {
+                                        continue;
+                                    }
+                                    let ns = sq(f, r);
+                                    if mated.board[ns as usize].is_some() || ns == s {
+                                        continue;
+                                    }
+                                    let mut t = mated.clone();
+                                    t.board[ns as usize] = Some((opp, ik));
+                                    if t.chess_root_ok().is_err() || !t.is_legal(m) {
+                                        continue;
+                                    }
+                                    let after = t.apply(m);
+                                    let replies = after.legal_moves();
+                                    if after.in_check() && !replies.is_empty() && replies.iter().all(|r| r.to == b) {
+                                        out.push(Crafted { family: "interposition-near-mate", pre: t, moves: vec![] });
+                                        break 'geometry;
+                                    }
+                                }
+                            }
+                            if maker_calls >= 40 {
+                                break 'geometry;
+                            }
+                        }
+                    }
+                }
+            }
+        }
+    }
+}
+
 /// Mates in one by a capture after which only the kings and exactly two minor pieces remain (the
 /// boundary of "insufficient material").  The list was enumerated with this model by the developer
 /// tool mon-core/src/bin/gen-small-mates.rs; every entry is re-validated here (a capture that mates
